@@ -413,3 +413,40 @@ def discarded_results(ctx, rep, modules: Optional[Sequence[str]] = None, label: 
         rep.ob(f"{label}{mod}: no expression statement discards the result of a pure string method", True,
                f"{k} expression statements inspected", mod)
     return n
+
+
+# ------------------------------------------------------------------ a suffix is stripped once
+def double_suffix_strip(ctx, rep, modules: Optional[Sequence[str]] = None, label: str = ""):
+    """`p.stem` already is the name without its suffix; applying `.with_suffix(...)` to it replaces whatever follows the
+    last remaining dot, so `notes.v1.md` and `notes.v2.md` both become `notes.html`.  Flags `.with_suffix()` whose receiver is
+    (an attribute or local assigned from) an expression built on `.stem`."""
+    py = ctx.py
+    n = 0
+    def from_stem(e: ast.AST) -> bool:
+        return any(isinstance(a, ast.Attribute) and a.attr == "stem" for a in ast.walk(e))
+    for cname, ci in list(py.classes.items()) + [(None, None)]:
+        fns = list(ci.methods.values()) if ci is not None else [fn for m, fn in py.all_functions() if py.enclosing_class(fn) is None]
+        if ci is not None and modules is not None and ci.module not in modules:
+            continue
+        stem_attrs: Set[str] = set()
+        for fn in fns:
+            for st in ast.walk(fn):
+                if isinstance(st, ast.Assign) and from_stem(st.value):
+                    for t in st.targets:
+                        if isinstance(t, ast.Attribute) and isinstance(t.value, ast.Name) and t.value.id == "self":
+                            stem_attrs.add(t.attr)
+        for fn in fns:
+            if modules is not None and py.module_of(fn) not in modules:
+                continue
+            for c in ast.walk(fn):
+                if isinstance(c, ast.Call) and isinstance(c.func, ast.Attribute) and c.func.attr == "with_suffix":
+                    r = c.func.value
+                    alts = astq.expand_locals(r, fn)
+                    bad = any(from_stem(x) for x in alts) or (isinstance(r, ast.Attribute) and isinstance(r.value, ast.Name)
+                                                              and r.value.id == "self" and r.attr in stem_attrs)
+                    n += 1
+                    rep.ob(f"{label}{py.qualname(fn)}: `{ast.unparse(c)[:50]}` replaces a real suffix", not bad,
+                           "the receiver still carries the file's own suffix" if not bad else
+                           f"`{ast.unparse(r)}` was built from `.stem` (the suffix is already gone): with_suffix() now cuts at the last dot of "
+                           f"the stem, so `notes.v1.md` and `notes.v2.md` are both written to `notes.html`", py.nloc(c), nontrivial=bad)
+    return n
